@@ -156,41 +156,37 @@ def rule_entry(facts):
     # ---- ParseResult accessors
     b = facts.one("ParseResult::into_result")
     pv = Prov(b)
+    import nf
     ie = [(i, t) for i, bl, t, f in calls(b) if f is not None and f["name"] == "is_empty" and pv.of_operand(t["args"][0]["op"]) == {("arg", 1, "errs")}]
     ok = len(ie) == 1
     why = "no errs.is_empty() test"
     if ok:
+        # per path: what is returned, and what the path knows about errs.is_empty().  Err(errs) is always allowed (an empty error list
+        # with no output is still a failure); an Ok-capable value - Ok(<payload of self.output>) or self.output.ok_or(errs) - only under
+        # the fact `errs.is_empty()`.  How the two tests are nested (if / guarded match / early return) does not matter.
         dl = ie[0][1]["dest"]["l"]
-        n_false = n_true = 0
+        N = nf.Normalizer(facts)
+        n_ok = n_err = 0
         for path, val in _switch_var_paths(b, dl):
-            # return value on this path
-            retv = None
-            for (bb, idx) in path:
-                bl = b["blocks"][bb]
-                for s in bl["stmts"]:
-                    if s["k"] == "assign" and s["place"]["l"] == 0 and not s["place"]["p"]:
-                        retv = ("rv", s["rv"])
-                t = bl["term"]
-                if t["k"] == "call" and t["dest"]["l"] == 0 and not t["dest"]["p"]:
-                    retv = ("call", t)
-            if val is None:
-                ok = False
-                why = "a path returns without testing errs.is_empty()"
+            if path and path[-1][1] == "loop":
                 continue
-            if val == 0:      # is_empty() == false: errors present -> must be Err(errs)
-                n_false += 1
-                good = retv is not None and retv[0] == "rv" and retv[1]["k"] == "agg" and retv[1].get("variant") == "Err"
-                if not good:
+            rets = N.alts(nf.NProv(b, facts, path).of_local(0))
+            for rv_ in rets:
+                if rv_ == "Result{0: arg1.errs}":
+                    n_err += 1
+                    continue
+                okish = rv_ in ("arg1.output", "Result{0: arg1.output}", "ok_or(arg1.output, arg1.errs)")
+                if not okish:
                     ok = False
-                    why = "with errors present the result is not Err"
-            else:             # no errors: Ok iff output is Some  (Option::ok_or on self.output)
-                n_true += 1
-                good = retv is not None and retv[0] == "call" and (callee_of(retv[1]) or {}).get("name") == "ok_or" \
-                    and pv.of_operand(retv[1]["args"][0]["op"]) == {("arg", 1, "output")}
-                if not good:
+                    why = "returns %s" % rv_
+                elif val is None or val == 0:
                     ok = False
-                    why = "without errors the result is not output.ok_or(..)"
-        ok = ok and n_false >= 1 and n_true >= 1
+                    why = "an Ok-capable value (%s) is returned on a path where errs.is_empty() is %s" % (rv_, "false" if val == 0 else "not tested")
+                else:
+                    n_ok += 1
+        if ok and not (n_ok >= 1 and n_err >= 1):
+            ok = False
+            why = "paths returning Ok: %d, Err: %d" % (n_ok, n_err)
     r.ob(ok)
     r.samples.append({"into_result": "Ok only under errs.is_empty() via output.ok_or(errs)" if ok else why})
     if not ok:
